@@ -77,7 +77,7 @@ def balance_part(verdict, cov, mc, seed, tier, tag):
             for srv in (('a', 'b') if k % 2 else ('b', 'a')):
                 steps += [{'op': 'up' if srv not in up0 else 'down', 'srv': srv}, {'op': 'call'}, {'op': 'call'}]
             stims.append({'class': 'balance_list', 'servers': ['a', 'b'], 'up0': up0, 'list': ['a', 'b'] if k % 3 else ['a'], 'script': steps})
-        ev, path = simple.run_lab('balance', stims, tag + '_balance', 'balance', timeout=1500)
+        ev, path = simple.run_lab('balance', stims, tag + '_balance', 'balance', timeout=2400, env={'VH_HANG_SECS': '90'})
         # the clauses of C14 that read the same for any channel (completes, definite result, recovers) are violations when they fail
         # (this lab runs in real time over real sockets: a violation is reported only if it shows again when the run is repeated on its own)
         if not any(e.get('e') == 'lab_error' for e in ev):
@@ -87,7 +87,7 @@ def balance_part(verdict, cov, mc, seed, tier, tag):
             badruns = sorted({b['run'] for b in res1.get('bad', [])})
             if badruns:
                 again = [r[0]['stim'] for r in core.split_runs(ev) if r[0].get('run') in badruns][:10]
-                ev2, path2 = simple.run_lab('balance', again, tag + '_balance', 'balance_again', timeout=900)
+                ev2, path2 = simple.run_lab('balance', again, tag + '_balance', 'balance_again', timeout=1200, env={'VH_HANG_SECS': '90'})
                 simple.validate('C14', 'Trace_Balance', verdict, ev2, path2, 'balance', cov, clause_filter=cf)
                 info['violating_runs_first_pass'] = len(badruns)
         runs = [r for r in core.split_runs(ev) if not any(e.get('e') == 'lab_error' for e in r)]
